@@ -287,8 +287,25 @@ def as_verdict(desc):
         for x, y, z in locs:
             w = 1.0 / ((y - yf) ** 10 + 1e-10)
             eps = max(eps, float(np.sum(w[ny:]) / np.sum(w)))
-        rt = rt + 20.0 * eps
+        # the leaked share acts on the displacement the point-mass/thrust loads cause ALONE; when lift and weight nearly
+        # cancel, that part dominates the net displacement, so the relative effect is amplified by d_mass / d_net
+        from oasv.models import struct_alone_problem
+
+        sm = dict(sh)
+        sm["struct_weight_relief"] = False
+        sm["distributed_fuel_weight"] = False
+        pm_ = struct_alone_problem(sm, loads=np.zeros((ny, 6)), load_factor=desc["load_factor"],
+                                   extra={"point_masses": (np.array(desc["masses"][:nm]), "kg"),
+                                          "point_mass_locations": (np.array(locs), "m"),
+                                          "engine_thrusts": (np.array(desc["thrust"][:nm]), "N")})
+        pm_.run_model()
+        d_mass = float(np.max(np.abs(pm_.get_val("disp"))))
+        d_net = max(float(np.max(np.abs(ph.get_val("AS_point_0.coupled.wing.disp")))), 1e-300)
+        amp = max(1.0, d_mass / d_net)
+        pm_.cleanup()
+        rt = rt + 20.0 * eps * amp
         out.info["pointmass_leak"] = eps
+        out.info["pointmass_amplification"] = amp
         out.label("leak>1e-6" if eps > 1e-6 else "leak<=1e-6")
     A = "AS_point_0."
     Fh = ph.get_val(A + "coupled.aero_states.wing_sec_forces")
